@@ -34,19 +34,21 @@ var riskyFeatures = []string{
 	"break.in.while", "break.in.dowhile", "break.in.for", "break.in.foreach", "break.in.switch", "break.level>=2",
 	"continue.in.while", "continue.in.dowhile", "continue.in.for", "continue.in.foreach", "continue.level>=2", "switch.continue-level",
 	"switch.default-middle", "switch.group", "switch.fallthrough",
+	"dowhile.then-prefix-incdec",
 }
 
 var featurePrereq = map[string][]string{
-	"static.compound-assign": {"static.local"},
-	"static.assign":          {"static.local"},
-	"break.in.while":         {"loop.while"},
-	"continue.in.while":      {"loop.while"},
-	"break.in.dowhile":       {"loop.dowhile"},
-	"continue.in.dowhile":    {"loop.dowhile"},
-	"break.in.foreach":       {"loop.foreach"},
-	"continue.in.foreach":    {"loop.foreach"},
-	"foreach.keyed":          {"loop.foreach"},
-	"foreach.var":            {"loop.foreach"},
+	"static.compound-assign":     {"static.local"},
+	"static.assign":              {"static.local"},
+	"break.in.while":             {"loop.while"},
+	"continue.in.while":          {"loop.while"},
+	"break.in.dowhile":           {"loop.dowhile"},
+	"continue.in.dowhile":        {"loop.dowhile"},
+	"break.in.foreach":           {"loop.foreach"},
+	"continue.in.foreach":        {"loop.foreach"},
+	"foreach.keyed":              {"loop.foreach"},
+	"foreach.var":                {"loop.foreach"},
+	"dowhile.then-prefix-incdec": {"loop.dowhile", "prefix.incdec"},
 }
 
 type progCase struct {
@@ -151,7 +153,7 @@ func probeFeatures(t *testing.T, rec *sb.Rec, pool *sb.Pool, prop string, base p
 				rec.InfraProblem("%s", detail)
 				return nil
 			}
-			f := &failure{Key: "feature:" + x, Detail: fmt.Sprintf("construct %s alone: %s\n%s", x, detail, c.Src), Case: c}
+			f := &failure{Key: "feature:" + x, Detail: fmt.Sprintf("construct %s alone: %s\n%s", x, detail, c.Src), Case: c, Post: reducePost(pool, p, true, kind, "feature:"+x)}
 			if firstFail == nil {
 				firstFail = f
 			}
@@ -204,8 +206,10 @@ func TestC02(t *testing.T) {
 	for f := range failing {
 		exclude[f] = true
 	}
-	// lift exclusions of known findings whose probe passes now (defect repaired)
-	exclude = confirmExclusions(t, rec, pool, base, exclude, failing, per)
+	// Listed findings stay excluded from the main campaign even when this run's
+	// probe of the construct happened to pass (a probe is a sample: 'neg' only
+	// shows when the operand is 0). The construct is still searched on its own by
+	// its probe campaign on every run; removing the finding line restores full depth.
 	var exl []string
 	for k := range exclude {
 		exl = append(exl, k)
@@ -246,44 +250,38 @@ func TestC02(t *testing.T) {
 			rec.InfraProblem("%s", detail)
 			return nil
 		}
-		return &failure{Key: kind, Detail: detail + "\n" + c.Src, Case: c}
+		return &failure{Key: kind, Detail: detail + "\n" + c.Src, Case: c, Post: reducePost(pool, p, tmpl, kind, "")}
 	})
 }
 
-// confirmExclusions re-probes, on this shard, every excluded feature that this
-// shard did not probe itself; a feature whose probe passes is no longer excluded.
-func confirmExclusions(t *testing.T, rec *sb.Rec, pool *sb.Pool, base pgen.Cfg, exclude, failing map[string]bool, per int) map[string]bool {
-	out := map[string]bool{}
-	for x := range exclude {
-		if failing[x] {
-			out[x] = true
-			continue
-		}
-		cfg := base
-		cfg.Exclude = excludeAllBut(x)
-		bad := false
-		rapidLoopQuiet(t, rec, "confirm-"+x, per, func(rt *rapid.T) *failure {
-			p := pgen.Gen(rt, cfg)
-			if p.Feats[x] == 0 {
-				return nil
-			}
-			res, err := pgen.Run(p)
+// reducePost returns an AST-level reducer for a failing program: statements are
+// deleted while origami and the reference interpreter keep disagreeing in the same way.
+func reducePost(pool *sb.Pool, p *pgen.Program, tmpl bool, kind, keyOverride string) func() *failure {
+	return func() *failure {
+		var lastDetail string
+		var lastCase progCase
+		pgen.Reduce(p, func(q *pgen.Program) bool {
+			res, err := pgen.SafeRun(q)
 			if err != nil {
-				return nil
+				return false
 			}
-			c := mkCase(p, res, true)
-			kind, detail := judgeProgram(pool, c)
-			if kind == "" || kind == "infra" {
-				return nil
+			c := mkCase(q, res, tmpl)
+			k, d := judgeProgram(pool, c)
+			if k != kind {
+				return false
 			}
-			bad = true
-			return &failure{Key: "feature:" + x, Detail: fmt.Sprintf("construct %s alone: %s\n%s", x, detail, c.Src), Case: c}
-		})
-		if bad {
-			out[x] = true
+			lastDetail, lastCase = d, c
+			return true
+		}, 3000)
+		if lastCase.Src == "" {
+			return nil
 		}
+		key := kind
+		if keyOverride != "" {
+			key = keyOverride
+		}
+		return &failure{Key: key, Detail: lastDetail + "\n" + lastCase.Src, Case: lastCase}
 	}
-	return out
 }
 
 func progReplay(cfg sb.Config, rec *sb.Rec, pool *sb.Pool) {
